@@ -31,19 +31,19 @@ import (
 
 // Node kinds: which wire construct supplies the node's type.
 const (
-	kF    = "F"    // func P(deps) *T
-	kFE   = "FE"   // func P(deps) (*T, error)
-	kV    = "V"    // wire.Value(T{...})           provides T
-	kVp   = "Vp"   // wire.Value(&T{...})          provides *T
-	kIV   = "IV"   // wire.InterfaceValue(new(I), &T{...}) provides I
-	kSAp  = "SAp"  // wire.Struct(new(S), "*")     consumed as *S
-	kSAv  = "SAv"  // wire.Struct(new(S), "*")     consumed as S
-	kSFp  = "SFp"  // wire.Struct(new(S), "F..")   consumed as *S (one field left out)
-	kSFv  = "SFv"  // wire.Struct(new(S), "F..")   consumed as S
-	kFOva = "FOva" // wire.FieldsOf(new(C), "A"),  C is an injector argument
-	kFOvf = "FOvf" // wire.FieldsOf(new(C), "A"),  C returned by a provider func
-	kFOpa = "FOpa" // wire.FieldsOf(new(*C), "A"), *C is an injector argument
-	kFOpf = "FOpf" // wire.FieldsOf(new(*C), "A"), *C returned by a provider func
+	kF    = "F"     // func P(deps) *T
+	kFE   = "FE"    // func P(deps) (*T, error)
+	kV    = "V"     // wire.Value(T{...})           provides T
+	kVp   = "Vp"    // wire.Value(&T{...})          provides *T
+	kIV   = "IV"    // wire.InterfaceValue(new(I), &T{...}) provides I
+	kSAp  = "SAp"   // wire.Struct(new(S), "*")     consumed as *S
+	kSAv  = "SAv"   // wire.Struct(new(S), "*")     consumed as S
+	kSFp  = "SFp"   // wire.Struct(new(S), "F..")   consumed as *S (one field left out)
+	kSFv  = "SFv"   // wire.Struct(new(S), "F..")   consumed as S
+	kFOva = "FOva"  // wire.FieldsOf(new(C), "A"),  C is an injector argument
+	kFOvf = "FOvf"  // wire.FieldsOf(new(C), "A"),  C returned by a provider func
+	kFOpa = "FOpa"  // wire.FieldsOf(new(*C), "A"), *C is an injector argument
+	kFOpf = "FOpf"  // wire.FieldsOf(new(*C), "A"), *C returned by a provider func
 	kFO2  = "FO2pa" // wire.FieldsOf(new(*C), "A", "B"): two fields, both consumed; *C is an injector argument
 	kFOM  = "FOMpa" // wire.FieldsOf(new(*C), "A"), wire.FieldsOf(new(*C), "B"): two elements over one struct
 )
@@ -68,7 +68,7 @@ type wNode struct {
 // wCfg is one wire configuration.
 type wCfg struct {
 	Nodes  []wNode `json:"nodes"`
-	Sets   string  `json:"sets"`             // flat | inline | var | file | nested
+	Sets   string  `json:"sets"`              // flat | inline | var | file | nested
 	BindAt string  `json:"bind_at,omitempty"` // "" (wire.Bind next to its provider) | "build" (provider in the set, wire.Bind in wire.Build)
 	Extra  bool    `json:"extra_arg,omitempty"`
 	Err    bool    `json:"err"`
@@ -168,15 +168,6 @@ func (c *wCfg) fallible() []string {
 		}
 	}
 	return out
-}
-
-func (c *wCfg) bound() bool {
-	for _, n := range c.Nodes {
-		if n.Bind != "" {
-			return true
-		}
-	}
-	return false
 }
 
 func (c *wCfg) argMode() string {
@@ -756,7 +747,7 @@ func Main() {
 }
 `
 
-// typeDecl describes a generated named type for the argument builder.
+// wField is a named, typed slot: a struct field or a function parameter.
 type wField struct{ Name, Type string }
 
 // termArg spells expression x of type t as a sym.Termer (Term methods have pointer receivers).
@@ -1299,7 +1290,8 @@ var reDigits = regexp.MustCompile(`\d+`)
 // generalize strips indices from a type or message so that it can serve in a mechanism signature.
 func generalize(s string) string { return reDigits.ReplaceAllString(s, "") }
 
-// lastLine returns the last non-empty line of a tool's output with paths and positions removed.
+// toolMessage returns the last non-empty line of a tool's output with paths, positions and the
+// scratch packages' qualifiers removed.
 func toolMessage(out string) string {
 	lines := strings.Split(strings.TrimSpace(out), "\n")
 	for i := len(lines) - 1; i >= 0; i-- {
